@@ -15,6 +15,8 @@ def probes():
     # private stack: top and bottom bytes usable, zero-initialised for the interpreter
     P.append(('stack-top', B.load_const(3, 0x77) + B.stx('b', 10, 3, -1) + B.ldx('b', 0, 10, -1) + B.EXIT))
     P.append(('stack-bottom', B.load_const(3, 0x1122334455667788) + B.stx('dw', 10, 3, -512) + B.ldx('dw', 0, 10, -512) + B.EXIT))
+    P.append(('mbuff-first-dw', B.ldx('dw', 0, 1, 0) + B.EXIT))
+    P.append(('mbuff-last-w', B.ldx('w', 0, 1, 12) + B.EXIT))
     P.append(('ldabs0', B.ldabs('b', 0) + B.EXIT))
     P.append(('ldind1', B.mov(3, 1) + B.ldind('b', 3, 0) + B.EXIT))
     return P
@@ -39,6 +41,8 @@ def run(chk):
             for ln in lens:
                 pk = bytes((3 * i + 5) & 255 for i in range(ln))
                 for name, prog in probes():
+                    if name.startswith('mbuff-') and kind != 'mbuff':
+                        continue
                     for eng in ENGINES:
                         c = Case(prog, mem=pk, mbuff=bytes(range(16)) if kind == 'mbuff' else b'', fam=name)
                         lines.append(c.line(engine=eng, kind=kind))
@@ -74,6 +78,10 @@ def run(chk):
                     exp = L[0] if ln else 0
                 else:
                     exp = 0
+            elif name == 'mbuff-first-dw':
+                exp = int.from_bytes(bytes(range(8)), 'little')
+            elif name == 'mbuff-last-w':
+                exp = int.from_bytes(bytes(range(12, 16)), 'little')
             elif name == 'stack-top':
                 exp = 0x77
             elif name == 'stack-bottom':
